@@ -1,3 +1,4 @@
--- This module serves as the root of the `GM` library.
--- Import modules here that should be built as part of the library.
-import GM.Basic
+import GM.Model.Basic
+import GM.Model.ByteClass
+import GM.Model.Utf8
+import GM.Model.Util
